@@ -25,9 +25,16 @@ import time
 ROOT = os.path.dirname(os.path.dirname(os.path.abspath(__file__)))
 REPO = os.environ.get("VERIF_REPO", "/repo")
 SPEC = os.path.join(ROOT, "spec")
-BUILD = os.path.join(ROOT, "build")
 HARNESS = os.path.join(ROOT, "harness")
-EVID = os.path.join(ROOT, "evidence")
+# VERIF_REPO=<scratch worktree> runs a check against a mutated copy of go-git (self-tests of the
+# machinery); build output and evidence of such runs are kept apart from the real ones.
+if os.path.realpath(REPO) == "/repo":
+    BUILD = os.path.join(ROOT, "build")
+    EVID = os.path.join(ROOT, "evidence")
+else:
+    _key = re.sub(r"[^A-Za-z0-9]+", "_", os.path.realpath(REPO)).strip("_")
+    BUILD = os.path.join(ROOT, "build", "alt", _key)
+    EVID = os.path.join(BUILD, "evidence")
 TLA_JAR = "/opt/veriftools/tla/tla2tools.jar"
 CM_JAR = None
 
@@ -62,7 +69,8 @@ def gen_gomod():
     out.append(")")
     out.append("replace github.com/go-git/go-git/v6 => " + REPO)
     txt = "\n".join(out) + "\n"
-    p = os.path.join(HARNESS, "go.mod")
+    os.makedirs(BUILD, exist_ok=True)
+    p = os.path.join(BUILD, "go.mod")
     old = open(p).read() if os.path.exists(p) else None
     if old != txt:
         open(p, "w").write(txt)
@@ -71,7 +79,7 @@ def gen_gomod():
     extra = os.path.join(HARNESS, "go.sum.extra")
     if os.path.exists(extra):
         sums += open(extra).read()
-    ps = os.path.join(HARNESS, "go.sum")
+    ps = os.path.join(BUILD, "go.sum")
     olds = open(ps).read() if os.path.exists(ps) else None
     if olds != sums:
         open(ps, "w").write(sums)
@@ -81,7 +89,7 @@ def build_harness(race=False, pkg="vh"):
     os.makedirs(BUILD, exist_ok=True)
     gen_gomod()
     out = os.path.join(BUILD, pkg + ("-race" if race else ""))
-    cmd = ["go", "build", "-tags", "verif", "-o", out]
+    cmd = ["go", "build", "-modfile", os.path.join(BUILD, "go.mod"), "-tags", "verif", "-o", out]
     if race:
         cmd.insert(2, "-race")
     cmd.append("./cmd/" + pkg)
@@ -320,9 +328,17 @@ def tail(s, n=40):
 
 def load_known():
     p = os.path.join(ROOT, "known-findings.json")
-    if not os.path.exists(p):
-        return {"findings": [], "fixed": []}
-    return json.load(open(p))
+    k = {"findings": [], "fixed": []}
+    if os.path.exists(p):
+        k = json.load(open(p))
+    d = os.path.join(ROOT, "known-findings.d")
+    if os.path.isdir(d):
+        for f in sorted(os.listdir(d)):
+            if f.endswith(".json"):
+                x = json.load(open(os.path.join(d, f)))
+                k["findings"] += x.get("findings", [])
+                k["fixed"] += x.get("fixed", [])
+    return k
 
 
 def finish(ctx, level, err=None):
